@@ -276,8 +276,78 @@ func newFileObj(f int) *ach.File {
 	return x
 }
 
-func newBatchObj(b int) ach.Batcher {
-	x := ach.NewBatchPPD(ach.NewBatchHeader())
+// batch kinds: what the objects handed to StoreBatch hold.  Under bkReturn / bkNOC every batch object of a run has the
+// same content (a return / a notification of change received twice) and differs only in its ID; bkMixed alternates.
+const (
+	bkPlain = iota
+	bkReturn
+	bkNOC
+	bkMixed
+	nBatchKinds
+)
+
+var batchKindName = []string{"plain", "return", "noc", "mixed"}
+
+func newBatchObj(b int, bk int) ach.Batcher {
+	if bk == bkMixed {
+		bk = b % 3
+	}
+	var x ach.Batcher
+	switch bk {
+	case bkReturn:
+		bh := ach.NewBatchHeader()
+		bh.ServiceClassCode = ach.DebitsOnly
+		bh.StandardEntryClassCode = ach.PPD
+		bh.CompanyName = "Your Company"
+		bh.CompanyIdentification = "121042882"
+		bh.CompanyEntryDescription = "RETURN"
+		bh.ODFIIdentification = "12104288"
+		ed := ach.NewEntryDetail()
+		ed.TransactionCode = ach.CheckingReturnNOCDebit
+		ed.SetRDFI("231380104")
+		ed.DFIAccountNumber = "123456789"
+		ed.Amount = 12345
+		ed.IndividualName = "Wade Arnold"
+		ed.SetTraceNumber(bh.ODFIIdentification, 1)
+		ed.Category = ach.CategoryReturn
+		a99 := ach.NewAddenda99()
+		a99.ReturnCode = "R01"
+		a99.OriginalTrace = "121042880000001"
+		a99.OriginalDFI = "12104288"
+		ed.Addenda99 = a99
+		ed.AddendaRecordIndicator = 1
+		pb := ach.NewBatchPPD(bh)
+		pb.AddEntry(ed)
+		x = pb
+	case bkNOC:
+		bh := ach.NewBatchHeader()
+		bh.ServiceClassCode = ach.CreditsOnly
+		bh.StandardEntryClassCode = ach.COR
+		bh.CompanyName = "Your Company"
+		bh.CompanyIdentification = "121042882"
+		bh.CompanyEntryDescription = "NOC"
+		bh.ODFIIdentification = "12104288"
+		ed := ach.NewEntryDetail()
+		ed.TransactionCode = ach.CheckingReturnNOCCredit
+		ed.SetRDFI("231380104")
+		ed.DFIAccountNumber = "123456789"
+		ed.Amount = 0
+		ed.IndividualName = "Wade Arnold"
+		ed.SetTraceNumber(bh.ODFIIdentification, 1)
+		ed.Category = ach.CategoryNOC
+		a98 := ach.NewAddenda98()
+		a98.ChangeCode = "C01"
+		a98.OriginalTrace = "121042880000001"
+		a98.OriginalDFI = "12104288"
+		a98.CorrectedData = "1918171614"
+		ed.Addenda98 = a98
+		ed.AddendaRecordIndicator = 1
+		cb := ach.NewBatchCOR(bh)
+		cb.AddEntry(ed)
+		x = cb
+	default:
+		x = ach.NewBatchPPD(ach.NewBatchHeader())
+	}
 	x.SetID(batchIDs[b])
 	x.GetHeader().ID = batchIDs[b] // what Service.CreateBatch takes the batch's ID from
 	return x
